@@ -18,6 +18,7 @@ import json
 import logging
 import os
 
+from gen import c05_productions
 from gen import c16_selconst
 from harness import c16_gen as g
 from lib.framework import Check, enc, time_limit
@@ -185,7 +186,16 @@ class C16(Check):
 
     # ------------------------------------------------------------------------------------------
     def translate(self, ctx):
-        return {c16_selconst.OUT: c16_selconst.generate(ctx.repo)}
+        # the text-level theorems (T16.4) are about the tokenizer model: its generated tables are regenerated too
+        d, text = c05_productions.build(ctx.repo)
+        try:
+            problems = c05_productions.crosscheck(d)
+        except Exception as e:                          # noqa: BLE001
+            problems = ['cross-check impossible: %r' % (e,)]
+        ctx.notes['tokenizer_tables_crosscheck'] = problems or 'ok'
+        if problems:
+            raise c05_productions.TranslateError('; '.join(problems))
+        return {c16_selconst.OUT: c16_selconst.generate(ctx.repo), 'CssVerif/Gen/C05Productions.lean': text}
 
     def run(self, ctx):
         im = Impl()
@@ -337,6 +347,7 @@ class C16(Check):
                               'group': i, 'words': words})
         self.check_selectors(ctx, im, cases)
         self.check_spec(ctx, im, cases)
+        self.check_text(ctx, im, cases)
         for c in cases:
             self.oracle_grammar(ctx, im, c)
         # pairwise invariance inside a group (same AST, different spelling)
@@ -406,6 +417,58 @@ class C16(Check):
             if f['COOKED'] != cooked:
                 ctx.disagree('Sel.cooked = Selector._prepare_tokens(tokens)', w, cooked, f['COOKED'])
             ctx.count('spec-checked')
+
+    def check_text(self, ctx, im, cases):
+        """text level (T16.4): the tokenizer model in front of the selector model.
+        `text`: for the written selector, `plainChain raw`; for plain ones `Sel.text` = the rendered text and the
+        tokens of the tokenizer model = `Sel.raw` (the instance of `tokenize_plain`);
+        `seltext`: for EVERY generated text (plain or not) the model pipeline text -> tokens -> selector gives the real
+        tokenizer's tokens and what `Selector` reports for the text."""
+        if not ctx.model_ok:
+            return
+        good = [c for c in cases if in_model_domain(c['toks']) and c.get('text') is not None]
+        lines = []
+        for c in good:
+            if c.get('words'):
+                lines.append('text %s %s' % (enc_ns(c['ns']), ' '.join(c['words'])))
+            lines.append('seltext %s %s' % (enc_ns(c['ns']), enc(c['text'])))
+        replies = iter(ctx.driver(lines))
+        for c in good:
+            w = dict(self.witness(c))
+            want_toks = enc_toks([(t[0], t[1]) for t in c['toks']])
+            if c.get('words'):
+                r = next(replies)
+                if not r.startswith('TEXT '):
+                    ctx.disagree('written-selector wire format (text)', w, None, r[:80])
+                else:
+                    head, parsed = r.split(' | ', 1)
+                    f = dict(x.split('=', 1) for x in head.split(' ')[1:])
+                    if f['plain'] == '1':
+                        ctx.count('text-plain')
+                        if f['T'] != enc(c['text']):
+                            ctx.disagree('Sel.text of a plain written selector = its rendered text', w, enc(c['text']), f['T'])
+                        if f['TOK'] != want_toks:
+                            ctx.disagree('tokenize_plain instance: tokenizer model on Sel.text = Sel.raw = real tokens',
+                                         w, want_toks, f['TOK'])
+                        if parsed != c['impl']:
+                            ctx.disagree('text_render instance: model pipeline on Sel.text = Selector(text)', w,
+                                         c['impl'], parsed)
+                    else:
+                        ctx.count('text-nonplain')
+                    ctx.case(key=('text', c['text'], tuple(sorted(c['ns'].items()))), nontrivial=len(c['toks']) >= 3,
+                             kind='text:plain' if f['plain'] == '1' else 'text:other-spelling',
+                             sample={'text': c['text']})
+            r = next(replies)
+            if not r.startswith('SELTEXT '):
+                ctx.disagree('seltext wire format', w, None, r[:80])
+                continue
+            head, parsed = r.split(' | ', 1)
+            f = dict(x.split('=', 1) for x in head.split(' ')[1:])
+            if f['TOK'] != want_toks:
+                ctx.disagree('tokenizer model on a selector text = real tokenizer', w, want_toks, f['TOK'])
+            elif parsed != c['impl']:
+                ctx.disagree('model pipeline text -> tokens -> selector = Selector(text)', w, c['impl'], parsed)
+            ctx.count('seltext-checked')
 
     def oracle_grammar(self, ctx, im, c):
         """the generator knows specificity and structure by construction"""
